@@ -39,10 +39,10 @@ Section HttpCost.
     | _ :: _ =>
         let td := mkTd (g_seq p) (g_pay p) in
         if is_client && (g_src p =? f_cip f) && (g_sport p =? f_cport f) then
-          if negb (f_cparsed f) then len_N (g_pay p) + 3 * td_bytes (f_cdata f ++ [td])
+          if negb (f_cparsed f) && negb (is_retrans (f_cdata f) td) then len_N (g_pay p) + 3 * td_bytes (f_cdata f ++ [td])
           else len_N (g_pay p)
         else if (g_src p =? f_sip f) && (g_sport p =? f_sport f) then
-          if negb (f_sparsed f)
+          if negb (f_sparsed f) && negb (is_retrans (f_sdata f) td)
           then len_N (g_pay p) + 3 * td_bytes (if is_client then f_cdata f else f_sdata f ++ [td])
           else len_N (g_pay p)
         else len_N (g_pay p)
